@@ -2,6 +2,10 @@
 import itertools, random
 import dbggen, dbgcommon
 
+# observations the property does not speak about: a difference in these alone breaks the correspondence
+# but is not an input on which the property fails (reported with no-failing-input-found)
+AUX = ('debugger output differs', 'cmds differs')
+
 ASSUMPTIONS = [
     "`step` over a recursive call pauses at the first return to the following address (depth is not tracked, as the code's own doc comment says)",
     "`step out` is only available with `-f stack` (pinned by the existing expected-output test)",
@@ -65,7 +69,7 @@ def correspondence(ctx, violations, known_hits):
     rnd, specs = gen(ctx.tier, ctx.seed)
     cases, tags = dbgcommon.make_cases(rnd, specs)
     profiles = ("debug",)
-    r = dbgcommon.run_dbg_cases(ctx, cases, tags, violations, profiles,
+    r = dbgcommon.run_dbg_cases(ctx, cases, tags, violations, profiles, aux=AUX,
                                 note="model: the status machine advances the reference machine by exactly the promised instructions (C10 theorems)")
     ctx.cleanup()
     return dbgcommon.coverage(r,
